@@ -1,6 +1,7 @@
 package main
 
 import (
+	"encoding/json"
 	"fmt"
 	"go/types"
 	"os"
@@ -234,6 +235,19 @@ func (e *Engine) Explore(entry *ssa.Function, timeout time.Duration) {
 	var mu sync.Mutex
 	cond := sync.NewCond(&mu)
 	stack := []work{{}}
+	single := false
+	if f := os.Getenv("GOSYM_PREFIX"); f != "" {
+		// debugging aid: run exactly the path of a recorded counterexample
+		if data, err := os.ReadFile(f); err == nil {
+			var obj struct {
+				Decisions []Dec `json:"decisions"`
+			}
+			if json.Unmarshal(data, &obj) == nil {
+				stack = []work{{prefix: obj.Decisions}}
+				single = true
+			}
+		}
+	}
 	active := 0
 	var wg sync.WaitGroup
 	for w := 0; w < e.cfg.Workers; w++ {
@@ -268,6 +282,9 @@ func (e *Engine) Explore(entry *ssa.Function, timeout time.Duration) {
 				mu.Unlock()
 
 				alts := e.runPath(sol, entry, wk.prefix)
+				if single {
+					alts = nil
+				}
 
 				mu.Lock()
 				active--
